@@ -230,6 +230,25 @@ def tableFrames (m : PMem) (p4 : Word) : List Word :=
   let l1 := (children 2 l2).take cap
   p4 :: (l3 ++ l2 ++ l1)
 
+/-- A parent entry that was switched off (`set_flags_pN_entry` without `PRESENT`): non-zero, not present, not a
+huge leaf. It still links its table - the table is a page table of the hierarchy although the hardware walk does
+not reach it at the moment. -/
+def softLink (e : Word) : Option Word :=
+  if e != 0#64 && !bitP e && !bitPS e then some (tableAddr e) else none
+
+/-- `tableFrames`, also following switched-off links (C09: "frames that are page tables of that hierarchy"). -/
+def tableFramesSoft (m : PMem) (p4 : Word) : List Word :=
+  let cap := 512
+  let children (lvl : Nat) (ts : List Word) : List Word :=
+    ts.foldl (fun acc t =>
+      if acc.length ≥ cap then acc
+      else acc ++ ((List.range 512).filterMap fun i =>
+        match slotOf lvl (m t i) with | .table t' => some t' | _ => softLink (m t i))) []
+  let l3 := (children 4 [p4]).take cap
+  let l2 := (children 3 l3).take cap
+  let l1 := (children 2 l2).take cap
+  p4 :: (l3 ++ l2 ++ l1)
+
 /-- The page tables of the hierarchy with their index paths (root = `[]`), breadth first, capped like
 `tableFrames`. -/
 def tablesWithPaths (m : PMem) (p4 : Word) : List (List Nat × Word) :=
@@ -315,6 +334,18 @@ def parentSlots (m : PMem) (p4 : Word) (parents : List Nat) : List (Word × Nat)
       (tbl, i) :: (match slotOf lvl (m tbl i) with
         | .table t => go t (lvl - 1) rest
         | _ => [])
+  go p4 4 parents
+
+/-- `parentSlots`, continuing through switched-off parent entries (`softLink`). -/
+def parentSlotsSoft (m : PMem) (p4 : Word) (parents : List Nat) : List (Word × Nat) :=
+  let rec go (tbl : Word) (lvl : Nat) : List Nat → List (Word × Nat)
+    | [] => []
+    | i :: rest =>
+      (tbl, i) :: (match slotOf lvl (m tbl i) with
+        | .table t => go t (lvl - 1) rest
+        | _ => match softLink (m tbl i) with
+          | some t => go t (lvl - 1) rest
+          | none => [])
   go p4 4 parents
 
 def handleMapper : SHandler MState := fun _cfg op a impl st =>
@@ -442,6 +473,11 @@ def handleMapper : SHandler MState := fun _cfg op a impl st =>
             let pre := (parents ++ [leafIdx]).take depth
             if w flags &&& 1#64 == 0#64 then (if st.disabled.contains pre then st.disabled else pre :: st.disabled)
             else st.disabled.filter (· != pre)
+          else if opcode ≤ 2 && (pflagsEff &&& 1#64) == 1#64 then
+            -- a `map_to` whose parent flags contain PRESENT switches every switched-off entry on its path on again
+            -- (whatever its result: the walk ORs the parent flags in before it looks at the leaf slot; the entries
+            -- above a switched-off entry exist, so no allocation can fail before it is reached)
+            st.disabled.filter (fun pre => !(pre.length ≤ parents.length && pre == parents.take pre.length))
           else st.disabled
         let c01a := probes.all (fun va => walkMatchesAbs imPost p4 abs' disabled' va && softMatchesAbs imPost p4 abs' disabled' va)
         let c01b := (probes.zip obs.probes).all (fun (va, o) => probeMatchesWalk imPost p4 va o)
@@ -477,33 +513,50 @@ def handleMapper : SHandler MState := fun _cfg op a impl st =>
           if isOk then DocOutcome.success
           else if opcode ≤ 2 then outcomeOfMapCode errCode else outcomeOfOpCode errCode
         let pslots := parentSlots imPre p4 parents
+        -- … continuing through switched-off parent entries while a window is open
+        let pslotsS := if st.disabled.isEmpty then pslots else parentSlotsSoft imPre p4 parents
         let c02 :=
           (if obs.res.head? == some "panic" then false else true) &&
           outcomeOk doc obsOutcome isErr &&
           (if isErr then
              -- no translation changes on the probes …
-             probes.all (fun va => sameMapping (walk imPost p4 va) (walk imPre p4 va)) &&
+             -- (an address below a parent entry that was switched off and gains PRESENT again through the requested
+             -- parent flags becomes visible again: what it must translate to is decided by C01 above)
+             probes.all (fun va => (underDisabled st.disabled va && !underDisabled disabled' va) ||
+               sameMapping (walk imPost p4 va) (walk imPre p4 va)) &&
              -- … and every changed word is a new table's word, the link to a new table, or an
              -- existing parent entry that only gained the requested parent flags
              obs.changes.all (fun (f, i, v) =>
                allocated.contains (w f) ||
-               (imPre (w f) i == 0#64 && allocated.contains (tableAddr (w v)) && pslots.contains (w f, i)) ||
-               (pslots.contains (w f, i) && (match slotOf 4 (imPre (w f) i) with | .table _ => true | _ => false) &&
+               (imPre (w f) i == 0#64 && allocated.contains (tableAddr (w v)) && pslotsS.contains (w f, i)) ||
+               (pslotsS.contains (w f, i) &&
+                  (match slotOf 4 (imPre (w f) i) with
+                   | .table _ => true
+                   | _ => !st.disabled.isEmpty && (softLink (imPre (w f) i)).isSome) &&
                   tableAddr (w v) == tableAddr (imPre (w f) i) &&
                   (w v) == ((imPre (w f) i) ||| pflagsEff)))
            else true)
         -- C09
         let maxAlloc := parents.length
-        let c09 :=
-          obs.changes.all (fun (f, _, _) => preTables.contains (w f) || allocated.contains (w f)) &&
-          -- a new table is all zero apart from the (at most one) entry put into it by this call
-          allocated.all (fun f => ((List.range 512).filter (fun i => imPost f i != 0#64)).length ≤ 1) &&
-          (if opcode ≤ 2 then obs.allocs ≤ maxAlloc else obs.allocs == 0) &&
-          (if opcode ≤ 2 && isOk then
-             -- exactly the missing tables are allocated
-             obs.allocs + (pslots.filter (fun (f, i) => match slotOf 4 (imPre f i) with | .table _ => true | _ => false)).length == maxAlloc
-           else true) &&
-          (if opcode < 9 then obs.deallocs.isEmpty else true)
+        let preSoft := if st.disabled.isEmpty then preTables else tableFramesSoft imPre p4
+        let c09a := obs.changes.all (fun (f, _, _) => preSoft.contains (w f) || allocated.contains (w f))
+        -- a new table is all zero apart from the (at most one) entry put into it by this call
+        let c09b := allocated.all (fun f => ((List.range 512).filter (fun i => imPost f i != 0#64)).length ≤ 1)
+        let c09c := if opcode ≤ 2 then obs.allocs ≤ maxAlloc else obs.allocs == 0
+        let c09d :=
+          if opcode ≤ 2 && isOk then
+            -- exactly the missing tables are allocated
+            -- (a switched-off parent entry still links its table: mapping through it allocates nothing for that level)
+            obs.allocs + (pslotsS.filter
+              (fun (f, i) => match slotOf 4 (imPre f i) with
+                | .table _ => true
+                | _ => !st.disabled.isEmpty && (softLink (imPre f i)).isSome)).length == maxAlloc
+          else true
+        let c09e := if opcode < 9 then obs.deallocs.isEmpty else true
+        let c09 := c09a && c09b && c09c && c09d && c09e
+        let c09why := (if !c09a then "write-outside-tables " else "") ++ (if !c09b then "new-table-not-zero " else "") ++
+          (if !c09c then "too-many-allocations " else "") ++ (if !c09d then "allocations!=missing-tables " else "") ++
+          (if !c09e then "dealloc-outside-clean-up " else "")
         -- C10 (clean-up calls only)
         let c10 :=
           if opcode < 9 then true else
@@ -546,7 +599,7 @@ def handleMapper : SHandler MState := fun _cfg op a impl st =>
           ((st.mask &&& 4 == 0) || c09) && ((st.mask &&& 8 == 0) || c10) &&
           ((st.mask &&& 16 == 0) || (if isOk && opcode ≤ 4 then (obs.res.drop 1).head? == some (toString pageEff) else true))
         let why := (if (st.mask &&& 1 != 0) && !c01 then s!"C01(a={c01a},b={c01b},reclinks={recLinks},nprobe={obs.probes.length}/{probes.length}) " else "") ++ (if (st.mask &&& 2 != 0) && !c02 then "C02 " else "") ++
-          (if (st.mask &&& 4 != 0) && !c09 then "C09 " else "") ++ (if (st.mask &&& 8 != 0) && !c10 then "C10 " else "")
+          (if (st.mask &&& 4 != 0) && !c09 then "C09(" ++ c09why.trimAscii.toString ++ ") " else "") ++ (if (st.mask &&& 8 != 0) && !c10 then "C10 " else "")
         some ({ model := model, oracleOk := ok, why := why },
               { st with mm := mm', im := im', abs := abs', disabled := disabled', imPrev := st.im, lastOpcode := opcode,
                         lastPage := pageEff, lastFrame := frame, lastProbes := probes, lastPreTables := preTables })
